@@ -198,8 +198,9 @@ def faithful_conversion(F, R, rid, focus=None, focus_text=""):
                 "applied to a settings value, an options struct copied from the settings is overwritten field-wise only with values that come from the settings, "
                 "and an options struct built there takes every field from the settings (not from Default::default() or a literal)" % focus_text)
     bodies = conversion_bodies(F)
-    if len(bodies) < 13:
-        R.missing(rid, "Settings::new_chain / stats_options impls and nuts_options (found %d)" % len(bodies))
+    n_chain = sum(1 for b in bodies if b.fn_name == "new_chain")
+    if n_chain < 6:
+        R.missing(rid, "Settings::new_chain impls (found %d, expected the six presets)" % n_chain)
     for b in bodies:
         issues, n = analyse(F, b)
         mine = [i for i in issues if focus is None or focus(b.path, i[1])]
